@@ -194,6 +194,21 @@ def gen(shard, rng, tier):
                 k = rng.choice(list(nd[2]))
                 del nd[2][k]
                 fault, shown = "missing-member", "member %s missing at %s" % (k, "/".join(map(str, nd[0])) or "<root>")
+        elif kind == "undeclared" and rng.random() < 0.25:
+            # the struct type declares one member twice AND the value carries an undeclared member: still an undeclared member
+            nd = pick(lambda t, nd: t[0] == "struct" and isinstance(nd[2], dict) and len(nd[2]) > 0 and eip712.parse_type(nd[1])[1] != "EIP712Domain")
+            if nd:
+                sname = eip712.parse_type(nd[1])[1]
+                types = copy.deepcopy(types)
+                dup = rng.choice(types[sname])
+                types[sname].insert(rng.randrange(len(types[sname]) + 1), dup)
+                k = "fee"
+                while k in nd[2]:
+                    k += "_"
+                for other in nodes:
+                    if eip712.parse_type(other[1]) == ("struct", sname) and isinstance(other[2], dict):
+                        other[2][k] = rng.choice(["1", '"x"', "[]"])
+                fault, shown = "undeclared-member", "undeclared member %r in %s, which declares %r twice" % (k, sname, dup[0])
         elif kind == "undeclared":
             nd = pick(lambda t, nd: t[0] == "struct" and isinstance(nd[2], dict))
             if nd:
@@ -223,7 +238,10 @@ def gen(shard, rng, tier):
                     types = copy.deepcopy(types)
                     mn, ts = types[n][i]
                     ref = eip712.struct_ref(ts)
-                    types[n][i] = (mn, ts.replace(ref, ref + "Undefined", 1))
+                    newname = rng.choice([ref + "Undefined", "uint", "int", "uint" if "uint" not in types else "fixed", "byte", "bytes0", "uint264", "Uint256", "bool "])
+                    if newname in types:
+                        newname = ref + "Undefined"
+                    types[n][i] = (mn, newname + ts[len(ref):] if ts.startswith(ref) else ts.replace(ref, newname, 1))
                     fault, shown = "undefined-type", "%s.%s declared as %s" % (n, mn, types[n][i][1])
         else:
             nd = pick(lambda t, nd: nd[3] is not None)
